@@ -275,8 +275,9 @@ def w_symbol(val: int, at_end: bool) -> bool:
     name = NAMES[SHARD["name"]]
     with untraced():
         ir, m, s, bi = _base()
-        cb = gtirb.CodeBlock(size=1, uuid=U(5), byte_interval=bi)
-        db = gtirb.DataBlock(size=1, uuid=U(6), byte_interval=bi)
+        zs = SHARD.get("bsize", 1)          # size of the referenced blocks: 0 (zero-sized referent / entry point) or 1
+        cb = gtirb.CodeBlock(size=zs, uuid=U(5), byte_interval=bi)
+        db = gtirb.DataBlock(size=zs, uuid=U(6), byte_interval=bi)
         px = gtirb.ProxyBlock(uuid=U(7), module=m)
         m.entry_point = cb
     payload = {"none": None, "value": val, "code": cb, "data": db, "proxy": px}[pk]
